@@ -101,6 +101,18 @@ def dec_bytes(o):
             return rnd_bytes(seed, n)
         if '$zero' in o:
             return bytes(o['$zero'])
+        if '$bigtext' in o:
+            # poorly compressible ASCII program text of about n bytes
+            out = []
+            n = 0
+            c = 0
+            while n < o['$bigtext']:
+                ln = 'v%d="%s"\n' % (c, hashlib.sha256(
+                    str(c).encode()).hexdigest())
+                out.append(ln)
+                n += len(ln)
+                c += 1
+            return ''.join(out).encode()
     if isinstance(o, str):
         return o.encode('latin-1')
     raise HarnessError('not bytes: %r' % (o,))
